@@ -92,6 +92,12 @@ theorem parseThen_safe (hw : w.Returns) (loc : C18.Loc) (layout str : Bytes) (f 
     · exact Safe.bind' (timeOfParsed_safe hw _ _) fun t => hf t
     · exact .ret _
 
+theorem touchUnless_safe (c : Bool) (k : Comp Bytes) (h : Safe k) : Safe (touchUnless c k) := by
+  unfold touchUnless
+  split
+  · exact h
+  · exact .getMatch _ _ fun _ => h
+
 theorem smartDateParse_safe (hw : w.Returns) (format : Bytes) (loc : C18.Loc) (dateStage : Stage)
     (f : TimeR → Comp Bytes) (hd : Safe dateStage) (hf : ∀ t, Safe (f t)) :
     ∃ st, smartDateParse w format loc dateStage f = .ok st ∧ Safe st := by
@@ -106,7 +112,7 @@ theorem smartDateParse_safe (hw : w.Returns) (format : Bytes) (loc : C18.Loc) (d
     refine ⟨_, rfl, Safe.bind' hd fun s => ?_⟩
     split
     · exact Safe.pure _
-    · refine Safe.bind' (hw.detect _) fun live => ?_
+    · refine touchUnless_safe _ _ (Safe.bind' (hw.detect _) fun live => ?_)
       split
       · exact Safe.pure _
       · exact parseThen_safe hw _ _ _ _ hf
